@@ -107,6 +107,10 @@ Theorem C10_register_appends_usage : forall es k u e,
   exists e', entries_find k (fst (layer_step es (AddUsage k u))) = Some e' /\ e_usages e' = e_usages e ++ [u] /\ e_st e' = e_st e.
 Proof. exact add_appends_usage. Qed.
 
+(* a usage offered for a dialog that does not exist (any more) creates nothing *)
+Theorem C10_register_for_missing_dialog_noop : forall es k u, entries_find k es = None -> fst (layer_step es (AddUsage k u)) = es.
+Proof. exact add_usage_missing. Qed.
+
 Theorem C10_backlog_guard : dlg_backlog_no_overwrite = true.
 Proof. reflexivity. Qed.
 
